@@ -347,8 +347,15 @@ public:
 
   // TODO: if Source is always or always-inline, the trigger will never have a
   //       chance to finish first; maybe we should do something about that
-  static constexpr blocking_kind blocking = std::max(
-      sender_traits<Source>::blocking(), sender_traits<Trigger>::blocking());
+  static constexpr blocking_kind blocking =
+      (std::max(
+           sender_traits<Source>::blocking(),
+           sender_traits<Trigger>::blocking()) == blocking_kind::never() &&
+       sender_traits<Trigger>::blocking() != blocking_kind::never())
+      ? blocking_kind::maybe()
+      : std::max(
+            sender_traits<Source>::blocking(),
+            sender_traits<Trigger>::blocking());
 
   static constexpr bool is_always_scheduler_affine =
       sender_traits<Source>::is_always_scheduler_affine &&
@@ -391,7 +398,10 @@ public:
   tag_invoke(tag_t<unifex::blocking>, const type& s) noexcept {
     blocking_kind source = unifex::blocking(s.source_);
     blocking_kind trigger = unifex::blocking(s.trigger_);
-    return std::max(source(), trigger());
+    auto m = std::max(source(), trigger());
+    return (m == blocking_kind::never() && trigger() != blocking_kind::never())
+        ? blocking_kind::maybe()
+        : m;
   }
 
 private:
